@@ -105,9 +105,20 @@ def run(tier, seed):
         extra.append(dict(ev="crash.stress", scenario=name, exit=("ok" if k == "ok" else k), detail=det))
         stats["stress"] = stats.get("stress", 0) + 1
         vlib.log(f"stress {name}: {k}")
+    # a peer that vanishes between the acceptance of its login and the login answer (goroutine parked at ctl.start)
+    tlr = d / "loginreset.ndjson"
+    try:
+        q = subprocess.run([str(drv), "loginreset", "-rounds", str(3 if tier == "quick" else 9), "-out", str(tlr)], capture_output=True, text=True, timeout=300, env=RACE_ENV)
+        k, det = classify(q, False)
+    except subprocess.TimeoutExpired:
+        k, det = "wedged", "timeout"
+    extra.append(dict(ev="crash.stress", scenario="peer reset between login acceptance and login answer, then a login with the same run id", exit=("ok" if k == "ok" else k), detail=det))
+    stats["stress"] = stats.get("stress", 0) + 1
     with open(tf, "a") as f:
         if tfc.exists():
             f.write(tfc.read_text())
+        if tlr.exists():
+            f.write(tlr.read_text())
         for e in extra:
             f.write(json.dumps(e) + "\n")
     # a crashed crashfuzz leaves no coverage event: the trace spec still checks every case seen so far
